@@ -215,10 +215,8 @@ def _instr_seq(r, terminators, depth=0):
             ins = Instr('br_table', labels, r.u32())
         elif k == 'call_indirect':
             ti = r.u32()
-            tb = r.byte()
+            tb = r.u32()       # tableidx: a u32, any padding (`80 00`, LLVM's relocatable `80 80 80 80 00`)
             if tb != 0:
-                if tb & 0x80:
-                    raise DecodeError('zero byte expected (call_indirect table)')
                 raise Unsupported('call_indirect on table %d' % tb)
             ins = Instr('call_indirect', ti, 0)
         elif k == 'memarg':
